@@ -311,6 +311,10 @@ def bases(tier):
             simple.append(S.cp(None, ('attr', None, 't', op, 'v w' if op in ('=', '^=') else ('v' if op else None), flag)))
     simple += [S.cp(None, ('attr', 'x', 'k', '=', 'é"\\', None)), S.cp(None, ('attr', '*', 'k', None, None, None)),
                S.cp(None, ('attr', '', 'k', '=', '1a', 'i')), S.cp(S.T('a'), ('attr', None, 'type', '=', 'T', None))]
+    # values holding whitespace (or nothing else) under EVERY operator: written as a string or as an identifier with escapes they are the
+    # same value, whatever special treatment the operator gives to blanks (`~=` with a blank matches nothing - in both spellings)
+    simple += [S.cp(None, ('attr', None, 't', op, val, None)) for op in ('=', '~=', '|=', '^=', '$=', '*=', '!=') for val in ('v w', ' ', 'v\tw', ' v', 'v\n')
+               if not (op in ('=', '^=') and val == 'v w')]
     # values that are regular-expression syntax: quoted or as an escaped identifier they are the same literal text
     simple += [S.cp(None, ('attr', None, 't', op, val, None)) for op, val in (('=', '(v+)+.'), ('^=', '(v'), ('$=', 'v)?'), ('*=', 'v|w'), ('~=', '[v]'), ('|=', 'v*'), ('!=', '^v$'))]
     nth = [('nth', 'child', 2, 1, None), ('nth', 'last-child', -1, 3, None), ('nth', 'of-type', 0, 2, None), ('nth', 'last-of-type', 2, 0, None, 'even'),
